@@ -16,7 +16,7 @@ from util import J
 
 LEVEL = "proof"
 RULE = ("(a) each of the ~40 walker operations x 6 (quick) / 40 (thorough) fresh stores, guesses taken from the store whenever the routine accepts one; "
-        "(b) random histories (quick 5 x 60 calls; thorough 30 x 250) re-using earlier results and views. Observables of every live object are compared "
+        "(b) random histories (quick 5 x 60 calls; thorough 30 x 250) re-using earlier results and views; (c) directed histories: y derived from x by each of 22 operations, then set_core with a same-layout core on x and on y alternately (3 positions each). Observables of every live object are compared "
         "before/after each call. Non-trivial: calls that returned or modified an object; distinct by (op, operand structure).")
 ASSUMPTIONS = ["torch's tensor._version counts every in-place write to a tensor's storage view; untyped_storage().data_ptr() identifies storages",
                "the raw constructor TT(list) keeps the caller's list (documented hypothesis of history_stable): sequences that apply a documented in-place operation to one of two objects sharing a list are outside the statement; the walker always passes fresh lists"]
@@ -48,7 +48,7 @@ def diff(before, x):
             dn = dense_of(x)
             err = float(tn.linalg.norm((dn - before["dense"]).reshape(-1).to(tn.complex128)))
             ref = float(tn.linalg.norm(before["dense"].reshape(-1).to(tn.complex128)))
-            if err > 1e-12 * max(ref, 1e-300) and err > 0:
+            if not (err <= 1e-12 * max(ref, 1e-300) or err <= 0):      # NaN-safe
                 prop = "dense value changed (relative change %.3g)" % (err / max(ref, 1e-300))
     heap = None
     if id(x.cores) != before["list_id"]:
@@ -119,6 +119,32 @@ def run(res, rng, tier, known):
             wk.seed_objects()
             for st in range(nsteps):
                 ok = one_step(res, wk, "history", heap_obs)
+                if not ok:
+                    break
+            if not ok:
+                break
+    # (c) directed histories: y derived from x without a copy, then set_core (same layout, every position) on either of the two
+    if ok:
+        derive = ["t", "getitem", "sum", "diag", "to_ttm", "conj", "detach", "to", "truediv_scalar", "rmul", "scalar", "neg", "pow_none", "qtt",
+                  "reshape", "permute", "clone", "round", "mprod", "pad", "cat", "kron"]
+        for op in derive:
+            for r in range(2 if tier == "quick" else 10):
+                wk = Walker(rng)
+                wk.seed_objects()
+                wk.p_same_shape = 1.0
+                wk.force_target = rng.randrange(len(wk.store))
+                src = wk.force_target
+                wk.step = (lambda wk=wk, op=op: Walker.step(wk, force=op))
+                ok = one_step(res, wk, "derived", heap_obs)
+                if not ok:
+                    break
+                new = [j for j in range(len(wk.store)) if j >= 5]
+                for tgt in ([src] + new[-1:]) * 3:
+                    wk.force_target = tgt
+                    wk.step = (lambda wk=wk: Walker.step(wk, force="set_core"))
+                    ok = one_step(res, wk, "derived/" + op, heap_obs)
+                    if not ok:
+                        break
                 if not ok:
                     break
             if not ok:
